@@ -1071,8 +1071,12 @@ void VariableManager::assign_variable(const std::string &name,
             target_var->str_value = typed_value.string_value;
             // value フィールドに文字列のコピーのポインタを保存（generic
             // 型で使用される）
-            target_var->value = reinterpret_cast<int64_t>(
-                strdup(target_var->str_value.c_str()));
+            // （空文字列にはコピーを作らない: 生バッファと区別するため）
+            target_var->value =
+                target_var->str_value.empty()
+                    ? 0
+                    : reinterpret_cast<int64_t>(
+                          strdup(target_var->str_value.c_str()));
             target_var->is_assigned = true;
         } else if (typed_value.is_struct()) {
             if (typed_value.struct_data) {
@@ -1322,8 +1326,12 @@ void VariableManager::assign_variable(const std::string &name,
             target.str_value = typed_value.string_value;
             // value フィールドに文字列のコピーのポインタを保存（generic
             // 型で使用される）
-            target.value =
-                reinterpret_cast<int64_t>(strdup(target.str_value.c_str()));
+            // 空文字列にはコピーを作らない: 「str_value が空で value != 0」は
+            // malloc で確保した生バッファを意味する
+            target.value = target.str_value.empty()
+                               ? 0
+                               : reinterpret_cast<int64_t>(
+                                     strdup(target.str_value.c_str()));
             target.float_value = 0.0f;
             target.double_value = 0.0;
             target.quad_value = 0.0L;
